@@ -55,7 +55,7 @@ def model_summary(m, limit=40):
     return out
 
 
-def verify_function(qual, timeout_ms=60000, canary=True):
+def verify_function(qual, timeout_ms=60000, canary=True, shard=None):
     """returns dict: status in proved|failed|undecided, obligations list, meta"""
     ct = C.get(qual)
     modname, fname = qual.split(":")
@@ -79,7 +79,10 @@ def verify_function(qual, timeout_ms=60000, canary=True):
     res["trusted_base"] = sorted(getattr(ex, "trusted", set()))
     res["callee_contracts"] = sorted(getattr(ex, "called", set()))
     worst = "proved"
-    for key, ob in obls.items():
+    res["generated"] = len(obls)
+    for idx, (key, ob) in enumerate(obls.items()):
+        if shard is not None and idx % shard[1] != shard[0]:
+            continue
         # iterative deepening: most obligations need 3 rounds; only a refutation at the
         # contract's full fuel counts as `failed`
         for fuel in range(3, max(3, ct.fuel) + 1):
@@ -99,7 +102,7 @@ def verify_function(qual, timeout_ms=60000, canary=True):
         res["obligations"].append(rec)
     # vacuity guards (DESIGN §2.9): every cover point reachable, canary refuted
     res["vacuity"] = []
-    for name, pcs in ex.covers.items():
+    for name, pcs in (ex.covers.items() if shard is None or shard[0] == 0 else []):
         ok = False
         for pc in pcs:
             st, _ = L.check_valid(pc, z3.BoolVal(False), timeout_ms=timeout_ms, want_model=False)
@@ -111,6 +114,7 @@ def verify_function(qual, timeout_ms=60000, canary=True):
             res.setdefault("vacuity_failures", []).append(name)
     if not obls:
         res.setdefault("vacuity_failures", []).append("zero obligations")
+    res["shard"] = shard
     res["status"] = worst
     res["seconds"] = round(time.time() - t0, 3)
     return res
